@@ -232,5 +232,37 @@ Fixpoint holds_frames (maxv : N) (frames results : list val) : bytes :=
   | _, _ => []
   end.
 
+(** the compression in force after a sequence of frames, judged from the implementation's own
+    answers: the algorithm named by the last STARTUP it answered with READY (a STARTUP naming no
+    algorithm leaves it alone); a STARTUP it refused must have no effect *)
+Fixpoint accepted_compression (cur : bytes) (frames results : list val) : bytes :=
+  match frames, results with
+  | f :: fs, r :: rs =>
+      let cur' :=
+        match decode_header (vB f) with
+        | inr (h, body) =>
+            if (h_opcode h =? 1) && Z.eqb (vZ (nthv 0 r)) 1 && val_eqb (nthv 1 r) (L [L [I 2]]) then
+              match split_envelope (h_flags h) body with
+              | Some (_, msg) =>
+                  match read_string_map msg with
+                  | Some opts => match map_get (str "COMPRESSION") opts with Some c => lower c | None => cur end
+                  | None => cur
+                  end
+              | None => cur
+              end
+            else cur
+        | inl _ => cur
+        end in
+      accepted_compression cur' fs rs
+  | _, _ => cur
+  end.
+
 Definition holds_c13 (input output : val) : val :=
-  B (holds_frames (vN (nthv 0 input)) (vL (nthv 3 input)) (vL (nthv 0 output))).
+  match holds_frames (vN (nthv 0 input)) (vL (nthv 3 input)) (vL (nthv 0 output)) with
+  | [] =>
+      (* on a connection the proxy closed nothing can be observed any more *)
+      if existsb (fun r => Z.eqb (vZ (nthv 0 r)) 0) (vL (nthv 0 output)) then B []
+      else if bytes_eqb (vB (nthv 1 output)) (accepted_compression (lower (vB (nthv 1 input))) (vL (nthv 3 input)) (vL (nthv 0 output)))
+      then B [] else B (str "connection-compression-is-not-the-one-of-the-last-accepted-STARTUP")
+  | why => B why
+  end.
